@@ -62,7 +62,7 @@ pub mod packets {
         open spec fn progresses() -> bool { false }
         open spec fn self_delimiting() -> bool { false }
         open spec fn dec_rel(b: Seq<u8>, v: &usize, k: int) -> bool { true }
-        open spec fn dec_total() -> bool { false }
+        open spec fn dec_total(b: Seq<u8>) -> bool { false }
         open spec fn dec_stop(rest: Seq<u8>) -> bool { true }
         open spec fn functional() -> bool { false }
         //@ fn src:zvt/src/packets.rs | impl encoding::Encoding<usize> for PartialReversalReceiptNo | decode | ext
@@ -145,7 +145,7 @@ pub mod feig {
                 open spec fn spec_enc(v: &Vec<u8>) -> Seq<u8> { v@ }
                 open spec fn spec_dec(b: Seq<u8>) -> Option<(Vec<u8>, int)> { custom_dec(b) }
                 open spec fn dec_rel(b: Seq<u8>, v: &Vec<u8>, k: int) -> bool { v@ == b && k == b.len() }
-                open spec fn dec_total() -> bool { true }
+                open spec fn dec_total(b: Seq<u8>) -> bool { true }
                 open spec fn dec_stop(rest: Seq<u8>) -> bool { true }
                 open spec fn progresses() -> bool { false }
                 open spec fn self_delimiting() -> bool { false }
